@@ -633,6 +633,12 @@ where
             self_mut.list_ptr = self_ptr.wrapping_byte_offset(change);
             self_mut.range.start = self_mut.range.start.wrapping_add_signed(change);
             self_mut.range.end = self_mut.range.end.wrapping_add_signed(change);
+            // Everything inside me moved too, including the element a previous `get_mut`/`get_exclusive` pointed to.
+            if let Some(inner) = &mut self_mut.inner_exclusive {
+                unsafe {
+                    T::resize_notification(inner.as_mut(), source_ptr, change)?;
+                }
+            }
         } else if source_ptr == self_ptr.cast_const().cast() {
             // updating offset list should be handled by UnsizedList directly. Do nothing!
             self_mut.range.end = self_mut.range.end.wrapping_add_signed(change);
